@@ -270,26 +270,39 @@ def gate_input(G, gd, given):
     return G.reshape(list(gd) + list(gd)) if given == "tensor" else G
 
 
-def make_op_tn(geom, tn, G, pos, given="matrix"):
+def make_op_tn(geom, tn, G, pos, given="matrix", full=False):
     """the operator G on positions `pos` as an operator *network* with the target's naming:
-    1D -> MatrixProductOperator.from_dense (sub-MPO), otherwise a one-tensor TensorNetworkGenOperator"""
+    1D -> MatrixProductOperator.from_dense (a sub-MPO), otherwise a one-tensor operator network.
+    full=True adds an identity tensor on every other site (an operator over all sites)."""
     import quimb.tensor as qtn
 
     gd = [geom.dims[p] for p in pos]
     keys = [site_key(geom, p) for p in pos]
+    two_d = geom.cls in ("peps", "pepo")
+    fmt = "{},{}" if two_d else "{}"
+
+    def lab(prefix, k):
+        return prefix + fmt.format(*(k if isinstance(k, tuple) else (k,)))
+
     if geom.cls in ("mps", "mpsc", "mpo"):
-        return qtn.MatrixProductOperator.from_dense(gate_input(G, gd, given), dims=gd, sites=keys, L=geom.n, cutoff=0.0)
-    fmt = "{},{}" if geom.cls in ("peps", "pepo") else "{}"
-    up = ["k" + fmt.format(*(k if isinstance(k, tuple) else (k,))) for k in keys]
-    lo = ["b" + fmt.format(*(k if isinstance(k, tuple) else (k,))) for k in keys]
-    t = qtn.Tensor(np.asarray(G).reshape(gd + gd), inds=up + lo, tags=[tn.site_tag(k) for k in keys])
-    cls = {"peps": qtn.tensor_2d.TensorNetwork2DOperator if hasattr(qtn, "tensor_2d") else None}.get(geom.cls)
-    kw = dict(upper_ind_id="k" + fmt, lower_ind_id="b" + fmt, site_tag_id=tn.site_tag_id)
-    if geom.cls in ("peps", "pepo"):
-        from quimb.tensor.tn2d.core import TensorNetwork2DOperator
-        return qtn.TensorNetwork([t]).view_as(TensorNetwork2DOperator, Lx=geom.Lx, Ly=geom.Ly,
-                                              x_tag_id="X{}", y_tag_id="Y{}", **kw)
-    return qtn.TensorNetwork([t]).view_as(qtn.TensorNetworkGenOperator, sites=list(geom.sites), **kw)
+        A = qtn.MatrixProductOperator.from_dense(gate_input(G, gd, given), dims=gd, sites=keys, L=geom.n, cutoff=0.0)
+    else:
+        t = qtn.Tensor(np.asarray(G).reshape(gd + gd), inds=[lab("k", k) for k in keys] + [lab("b", k) for k in keys],
+                       tags=[tn.site_tag(k) for k in keys])
+        kw = dict(upper_ind_id="k" + fmt, lower_ind_id="b" + fmt, site_tag_id=tn.site_tag_id)
+        if two_d:
+            from quimb.tensor.tn2d.core import TensorNetwork2DOperator
+            A = qtn.TensorNetwork([t]).view_as(TensorNetwork2DOperator, Lx=geom.Lx, Ly=geom.Ly,
+                                               x_tag_id="X{}", y_tag_id="Y{}", **kw)
+        else:
+            A = qtn.TensorNetwork([t]).view_as(qtn.TensorNetworkGenOperator, sites=list(geom.sites), **kw)
+    if full:
+        for p in range(geom.n):
+            if p not in pos:
+                k = site_key(geom, p)
+                A |= qtn.Tensor(np.eye(geom.dims[p]).astype(np.asarray(G).dtype), inds=[lab("k", k), lab("b", k)],
+                                tags=[tn.site_tag(k)])
+    return A
 
 
 def phys_inds(geom, tn, pos, which):
@@ -307,14 +320,15 @@ def apply_entry(tn, geom, a, gauges=None):
     """Apply the gate described by `a` through the public entry point a['entry'].
     Returns the resulting network (a new object unless a['inplace']).  Raises whatever quimb raises.
 
-    a: entry, mode (python value), pos (0-based positions), G (matrix), given, op, which, ptags, inplace,
-       cutoff (None = library default), method (for mpo entries), renorm, smudge
+    a: entry, mode (as in the specification's table: the contract mode, the compression method of the MPO routes,
+       or a spelling variant), pos (0-based positions), G (matrix), given ('matrix'|'tensor'), op ('N'|'T'|'H'),
+       which, ptags, inplace, cutoff (None = library default) and a few spelling switches.
     """
     import quimb.tensor as qtn
 
     entry, mode, pos, op, which = a["entry"], a.get("mode"), list(a["pos"]), a["op"], a["which"]
     gd = [geom.dims[p] for p in pos]
-    G = np.asarray(a["G"]).astype(a.get("gdtype", "complex128"))
+    G = np.asarray(a["G"])
     Gin = gate_input(G, gd, a.get("given", "matrix"))
     keys = [site_key(geom, p) for p in pos]
     where = keys[0] if (len(keys) == 1 and a.get("bare_site")) else tuple(keys)
@@ -323,7 +337,7 @@ def apply_entry(tn, geom, a, gauges=None):
     okw = op_kwargs(op)
 
     if entry == "gate":
-        kw = dict(contract=mode, **okw, **copts)
+        kw = dict(contract=mode_value(mode), **okw, **copts)
         if "ptags" in a:
             kw["propagate_tags"] = a["ptags"]
         if a.get("tags"):
@@ -331,7 +345,7 @@ def apply_entry(tn, geom, a, gauges=None):
         if geom.kind == "op":
             # which=None means sandwich for operators
             if not (which == "sandwich" and a.get("which_default")):
-                kw["which"] = which
+                kw["which"] = "both" if (which == "sandwich" and a.get("which_both")) else which
         elif a.get("which_explicit"):
             kw["which"] = "site"
         fn = tn.gate_ if inplace else tn.gate
@@ -340,20 +354,21 @@ def apply_entry(tn, geom, a, gauges=None):
 
     if entry in ("gate_upper", "gate_lower", "gate_sandwich"):
         fn = getattr(tn, entry + ("_" if inplace else ""))
-        out = fn(Gin, where, contract=mode, **okw, **copts)
+        out = fn(Gin, where, contract=mode_value(mode), **okw, **copts)
         return tn if inplace else out
 
     if entry == "gate_inds":
         if which == "sandwich":
             fn = tn.gate_sandwich_inds_ if inplace else tn.gate_sandwich_inds
-            out = fn(Gin, phys_inds(geom, tn, pos, "upper"), phys_inds(geom, tn, pos, "lower"), contract=mode, **okw, **copts)
+            out = fn(Gin, phys_inds(geom, tn, pos, "upper"), phys_inds(geom, tn, pos, "lower"),
+                     contract=mode_value(mode), **okw, **copts)
         else:
             fn = tn.gate_inds_ if inplace else tn.gate_inds
-            out = fn(Gin, phys_inds(geom, tn, pos, which), contract=mode, **okw, **copts)
+            out = fn(Gin, phys_inds(geom, tn, pos, which), contract=mode_value(mode), **okw, **copts)
         return tn if inplace else out
 
     if entry == "gate_inds_with_tn":
-        # the gate as a tensor (or, 'split', as a two-tensor network) with its own labels
+        # the gate as a tensor (or as a two-tensor / one-tensor network) with its own labels
         outs = ["go%d" % k for k in range(len(pos))]
         ins = ["gi%d" % k for k in range(len(pos))]
         Gv = variant(G, "C") if op == "H" else G
@@ -361,26 +376,25 @@ def apply_entry(tn, geom, a, gauges=None):
         if op in ("T", "H"):
             outs, ins = ins, outs
         gate = tg
-        if a.get("mode") == "split" and len(pos) == 2:
+        if a.get("variant") == "split" and len(pos) == 2:
             gate = tg.split(["go0", "gi0"], cutoff=0.0)
-        elif a.get("mode") == "network":
+        elif a.get("variant") == "network":
             gate = qtn.TensorNetwork([tg])
         fn = tn.gate_inds_with_tn_ if inplace else tn.gate_inds_with_tn
         out = fn(phys_inds(geom, tn, pos, which), gate, ins, outs)
         return tn if inplace else out
 
     if entry == "Tensor.gate":
-        (p,) = pos
         (ix,) = phys_inds(geom, tn, pos, which)
         tn2 = tn if inplace else tn.copy()
         (t,) = tn2._inds_get(ix)
         Gv = variant(G, "C") if op == "H" else G
         kw = {}
         if op in ("T", "H"):
-            kw = {"transposed": True} if a.get("mode") == "transposed-alias" else {"transpose": True}
-        if a.get("mode") == "no-preserve":
+            kw = {"transposed": True} if a.get("variant") == "transposed-alias" else {"transpose": True}
+        if a.get("variant") == "no-preserve":
             kw["preserve_inds"] = False
-        if a.get("mode") == "returned":
+        if a.get("variant") == "returned":
             tnew = t.gate(Gv, ix, **kw)
             t.modify(data=tnew.data, inds=tnew.inds)
         else:
@@ -395,7 +409,7 @@ def apply_entry(tn, geom, a, gauges=None):
     if entry == "gate_with_auto_swap":
         fn = tn.gate_with_auto_swap_ if inplace else tn.gate_with_auto_swap
         kw = dict(okw)
-        if a.get("mode") == "info":
+        if a.get("variant") == "info":
             kw["info"] = {"cur_orthog": "calc"}
         out = fn(Gin, where, **kw, **copts)
         return tn if inplace else out
@@ -403,37 +417,36 @@ def apply_entry(tn, geom, a, gauges=None):
     if entry == "gate_sandwich_with_auto_swap":
         fn = tn.gate_sandwich_with_auto_swap_ if inplace else tn.gate_sandwich_with_auto_swap
         kw = {"dagger": True} if op == "H" else {}
-        if a.get("mode") in ("split", "reduce-split"):
-            kw["contract"] = a["mode"]
+        if not (mode == "split" and a.get("mode_default")):
+            kw["contract"] = mode
         out = fn(Gin, where, **kw, **copts)
         return tn if inplace else out
 
-    if entry == "gate_nonlocal":
-        fn = tn.gate_nonlocal_ if inplace else tn.gate_nonlocal
+    if entry in ("gate_nonlocal", "gate_with_submpo", "gate_with_mpo"):
         kw = {"transpose": True} if op == "T" else {}
-        if a.get("method"):
-            kw["method"] = a["method"]
-        out = fn(Gin, where, **kw, **copts)
-        return tn if inplace else out
-
-    if entry in ("gate_with_submpo", "gate_with_mpo"):
-        A = make_op_tn(geom, tn, G, pos, a.get("given", "matrix"))
-        kw = {"transpose": True} if op == "T" else {}
-        if a.get("method"):
-            kw["method"] = a["method"]
-        if entry == "gate_with_mpo":
-            A = A.fill_empty_sites(mode=a.get("fill", "full"), phys_dim=None if len(set(geom.dims)) == 1 else None)
+        if not (mode == "direct" and a.get("mode_default")):
+            kw["method"] = mode
+        if entry == "gate_nonlocal":
+            fn = tn.gate_nonlocal_ if inplace else tn.gate_nonlocal
+            out = fn(Gin, where, **kw, **copts)
+        elif entry == "gate_with_mpo":
+            if len(set(geom.dims)) == 1 and a.get("fill"):
+                A = make_op_tn(geom, tn, G, pos, a.get("given", "matrix")).fill_empty_sites(mode=a["fill"])
+            else:
+                A = make_op_tn(geom, tn, G, pos, a.get("given", "matrix"), full=True)
             fn = tn.gate_with_mpo_ if inplace else tn.gate_with_mpo
             out = fn(A, **kw, **copts)
         else:
+            A = make_op_tn(geom, tn, G, pos, a.get("given", "matrix"))
             fn = tn.gate_with_submpo_ if inplace else tn.gate_with_submpo
-            if a.get("where_given", True):
+            if not a.get("where_inferred"):
                 kw["where"] = where
             out = fn(A, **kw, **copts)
         return tn if inplace else out
 
     if entry == "op_lazy":
-        A = make_op_tn(geom, tn, G, pos, a.get("given", "matrix"))
+        # operator targets: the gating operator must cover every site ("matching structure")
+        A = make_op_tn(geom, tn, G, pos, a.get("given", "matrix"), full=(geom.kind == "op" or bool(a.get("full"))))
         if which == "site":
             fn = tn.gate_with_op_lazy_ if inplace else tn.gate_with_op_lazy
             out = fn(A, transpose=(op == "T"))
@@ -451,12 +464,14 @@ def apply_entry(tn, geom, a, gauges=None):
 
     if entry == "gate_simple":
         kw = dict(okw)
-        kw["renorm"] = bool(a.get("renorm", False))
+        kw["renorm"] = (mode == "renorm")
+        if a.get("renorm_default") and mode == "renorm":
+            del kw["renorm"]
         if a.get("smudge") is not None:
             kw["smudge"] = a["smudge"]
         kw["cutoff"] = 0.0 if a.get("cutoff") is None else a["cutoff"]
-        if mode in ("split", "reduce-split"):
-            kw["contract"] = mode
+        if a.get("simple_contract"):
+            kw["contract"] = a["simple_contract"]
         tn.gate_simple_(Gin, where, gauges, **kw)     # always in place (the plain spelling warns)
         return tn
 
